@@ -64,7 +64,12 @@ def build(rng):
         wg = Waveguide(speed=20 if same_speed else rng.choice([10, 20, 30]), scan=3 if same_scan else rng.randint(1, 6),
                        radius=rng.choice([15, 15, 25]), depth=rng.choice([0.035, 0.035, 0.0]),
                        name=rng.choice([f'wg{i}', f'waveguide_number_{i}_with_a_long_name']))
-        wg.start([-1.0, ys[i], wg.depth]).linear([2.0, 0, 0])
+        wg.start([-1.0, ys[i], wg.depth])
+        if rng.random() < 0.3:
+            # the very first move already changes y (the input y is that of the first point, not of the second)
+            wg.linear([2.0, rng.choice([0.5, -0.5, 0.31]), 0])
+        else:
+            wg.linear([2.0, 0, 0])
         kind = rng.choice(['straight', 'up', 'down', 'cross'])
         if kind == 'up':
             wg.arc_bend(0.08)
